@@ -402,6 +402,9 @@ func (p *Pattern) matchIdenticalFielder(state *MatcherState, subs []*pattern, f 
 }
 
 func (p *Pattern) matchIdentical(state *MatcherState, sub *pattern, typ types.Type, k matchCont) bool {
+	// An alias denotes the type it stands for (they are distinct nodes under gotypesalias=1).
+	typ = types.Unalias(typ)
+
 	switch sub.op {
 	case opVar:
 		name := sub.value.(string)
